@@ -389,6 +389,8 @@ def part_half(ctx, cs):
             tags = {"op": "half-roundtrip", "parity": ns % 2}
             try:
                 ax = axis if (len(shp) > 1 or rng.random() < 0.5) else None
+                if ax is not None and rng.random() < 0.3:
+                    ax = axis - len(shp)            # negative axis numbers name the same axes
                 Hh = f.freduce(X, axis=ax)
                 E = f.fexpand(Hh, ns, axis=ax)
             except Exception as e:
@@ -441,7 +443,7 @@ def part_dft(ctx, cs):
                 ns = shp[axis]
                 d = {"op": "dft", "x": flat_c(x.reshape(-1)), "shape": list(shp), "axis": axis}
                 try:
-                    X = np.asarray(f.dft(x, axis=axis))
+                    X = np.asarray(f.dft(x, axis=(axis - len(shp)) if rng.random() < 0.3 else axis))
                 except Exception as e:
                     ctx.fail("dft raised %r" % (e,), d, {"op": "dft", "kind": "exception"})
                     continue
@@ -495,6 +497,9 @@ def decode_codes(out):
 
 def rat(rng, choices):
     return rng.choice(choices)
+
+
+AXIS_COMBOS = [(nd, ax) for nd in (1, 2, 3, 4) for ax in range(nd)]
 
 
 def part_filters(ctx, cs):
@@ -559,35 +564,21 @@ def part_filters(ctx, cs):
                 ctx.fail("high-pass response is not monotone within [0, 1]", d, {"op": "filter", "typ": typ, "kind": "monotone"})
             if typ == "lp" and (np.any(np.diff(hh) > 1e-9) or hh.min() < -1e-9 or hh.max() > 1 + 1e-9):
                 ctx.fail("low-pass response is not monotone within [0, 1]", d, {"op": "filter", "typ": typ, "kind": "monotone"})
-        # (2) integer time series, every axis of a 1-3-D array: lp + hp = identity, bp = lp o hp = product response,
-        #     and each output equals ifft(fft(ts) * model response)
-        nd = rng.choice([1, 1, 2, 3])
-        axis = rng.randrange(nd)
-        shp = [rng.randrange(1, 5) for _ in range(nd)]
+        # (2) integer time series, every axis (0..ndim-1) of a 1-4-D array, cycling through all (ndim, axis)
+        #     combinations: lp + hp = identity, bp = lp o hp = product response, every fibre along the axis is
+        #     the 1-D filter of that fibre, and each output equals ifft(fft(ts) * model response)
+        nd, axis = AXIS_COMBOS[j % len(AXIS_COMBOS)]
+        other = [1, 2, 3, 4] + ([ns] if ns <= 6 else [])          # incl. lengths 1 and ns next to the filtered axis
+        shp = [rng.choice(other) for _ in range(nd)]
         shp[axis] = ns
+        while int(np.prod(shp)) > 20000:
+            shp[max((k for k in range(nd) if k != axis), key=lambda k: shp[k])] = 1
         ts = rand_ints(rng, int(np.prod(shp))).reshape(shp).astype(np.float64)
         if rng.random() < 0.3:
             ts = np.zeros(shp)
             ts[tuple(rng.randrange(s) for s in shp)] = 1.0          # an impulse somewhere
         dd = dict(d, ts=ts.astype(int).tolist(), axis=axis)
         use_axis = axis if (axis < nd - 1 or rng.random() < 0.5) else None
-        if nd - 1 - axis >= 2:
-            # F-C18-b class: ndim >= 3 and axis <= ndim-3 (the response is reshaped with one new axis only).
-            # Oracle only: each fibre along `axis` must be the 1-D filter of that fibre.
-            kf = {"op": "filter", "class": "ndim>=3,axis<=ndim-3"}
-            try:
-                o = np.asarray(f.lp(ts.copy(), si, bf[0:2], axis=axis))
-                okk = o.shape == ts.shape
-                if okk:
-                    for a_, b_ in zip(fibres(ts, axis), fibres(o, axis)):
-                        okk = okk and np.max(np.abs(np.asarray(f.lp(a_.copy(), si, bf[0:2])) - b_)) <= TOL * max(1.0, np.abs(a_).sum())
-                if not okk:
-                    ctx.fail("lp along axis %d of a %d-D array is not the 1-D filter of each fibre" % (axis, nd), dd, kf)
-            except Exception as e:
-                ctx.fail("lp along axis %d of a %d-D array raised %r" % (axis, nd, e), dd, kf)
-            cs.evals += 1
-            cs.count("filter_3d_outer_axis")
-            continue
         try:
             o_lp = np.asarray(f.lp(ts.copy(), si, bf[0:2], axis=use_axis))
             o_hp = np.asarray(f.hp(ts.copy(), si, bf[0:2], axis=use_axis))
@@ -602,6 +593,12 @@ def part_filters(ctx, cs):
             ctx.fail("lp + hp with the same corners is not the identity", dd, dict(tags, kind="lp+hp"))
         if o_bp.shape != ts.shape or np.max(np.abs(o_bp - o_lp2)) > TOL * scale:
             ctx.fail("bp differs from lp(b[2:4]) applied to hp(b[0:2])", dd, dict(tags, kind="bp-product"))
+        if nd > 1 and o_lp.shape == ts.shape:
+            for a_, b_ in zip(fibres(ts, axis), fibres(o_lp, axis)):
+                if np.max(np.abs(np.asarray(f.lp(a_.copy(), si, bf[0:2])) - b_)) > TOL * scale:
+                    ctx.fail("lp along axis %d of a %d-D array is not the 1-D filter of each fibre" % (axis, nd),
+                             dd, dict(tags, kind="fibre"))
+                    break
         S = np.fft.fft(ts, axis=axis)
         bshape = [1] * nd
         bshape[axis] = ns
@@ -612,9 +609,27 @@ def part_filters(ctx, cs):
         cs.evals += 4
         cs.count("filter_%dd" % nd)
         cs.count("filter_axis_last" if axis == nd - 1 else "filter_axis_inner")
+        cs.count("filter_nd%d_axis%d" % (nd, axis))
         cs.count("filter_odd" if ns % 2 else "filter_even")
         if ns > 3:
             cs.nontrivial.add(("filter", j))
+    # (3) negative axis numbers name the same axes: lp(ts, axis=-k) must equal lp(ts, axis=ndim-k)
+    for nd in (1, 2, 3):
+        for k in range(1, nd + 1):
+            shp = [rng.randrange(2, 6) for _ in range(nd)]
+            ts = rand_ints(rng, int(np.prod(shp))).reshape(shp).astype(np.float64)
+            dn = {"op": "filter-negative-axis", "ts": ts.astype(int).tolist(), "axis": -k, "si": 1, "b": [0.1, 0.3]}
+            tg = {"op": "filter", "class": "negative-axis"}
+            try:
+                o = np.asarray(f.lp(ts.copy(), 1, [0.1, 0.3], axis=-k))
+                ref = np.asarray(f.lp(ts.copy(), 1, [0.1, 0.3], axis=nd - k))
+                if o.shape != ref.shape or np.max(np.abs(o - ref)) > TOL * max(1.0, float(np.abs(ts).sum())):
+                    ctx.fail("lp(ts, axis=%d) on a %d-D array differs from lp(ts, axis=%d) (shape %s vs %s)"
+                             % (-k, nd, nd - k, o.shape, ref.shape), dn, tg)
+            except Exception as e:
+                ctx.fail("lp(ts, axis=%d) on a %d-D array raised %r" % (-k, nd, e), dn, tg)
+            cs.evals += 1
+            cs.count("filter_negative_axis")
     bad = common.coq_mismatches(PROP, HEADER, kernel_terms) if kernel_terms else []
     for i in bad:
         ctx.disagree("kernel-evaluated taper codes differ from the extracted model", {"op": "filter-codes", "flat": inputs[i]})
@@ -780,6 +795,13 @@ def replay(ctx, data):
                 sub.fail("filter identities", inp)
             if max(errs.values()) > 1e-9:
                 sub.disagree("response", inp)
+        elif op == "filter-negative-axis":
+            ts = np.array(inp["ts"], dtype=float)
+            o = np.asarray(f.lp(ts.copy(), inp["si"], inp["b"], axis=inp["axis"]))
+            ref = np.asarray(f.lp(ts.copy(), inp["si"], inp["b"], axis=ts.ndim + inp["axis"]))
+            print("lp(axis=%d) shape %s; lp(axis=%d) shape %s" % (inp["axis"], o.shape, ts.ndim + inp["axis"], ref.shape))
+            if o.shape != ref.shape or np.max(np.abs(o - ref)) > TOL * max(1.0, float(np.abs(ts).sum())):
+                sub.fail("negative axis", inp)
         elif op == "fcn_cosine":
             xs = np.array(inp["x"])
             y = U().fcn_cosine(inp["bounds"])(xs.copy())
